@@ -370,6 +370,10 @@ def effsOf : RState → List Nat
   | .either e _ _ _ _ inner => e :: effsOf inner
   | .show e _ _ _ _ _ inner => e :: effsOf inner
   | .forK e _ _ _ _ => [e]
+  | .scope _ _ _ inner => effsOf inner
+  | .rows e _ _ _ _ items => e :: effsOf items
+  | .rowCons _ r rest => effsOf r ++ effsOf rest
+  | .rowNil => []
 
 theorem GoodAttr.ext {K : Nat} {A : Nat → Prop} {st st' : St} (hi : RInv K st) (hx : Ext K A st st') :
     ∀ {a : Attr} {s : AState}, GoodAttr K st a s → (∀ e ∈ s.effs, ¬ A e) → GoodAttr K st' a s
@@ -432,6 +436,8 @@ theorem Good.ext {K : Nat} {A : Nat → Prop} {st st' : St} (hi : RInv K st) (hx
       · intro hl; exact iha inner (h.2.2.2.2.1 hl) (fun e he => ha e (by simp [effsOf, he]))
       · intro hl; exact ihb inner (h.2.2.2.2.2 hl) (fun e he => ha e (by simp [effsOf, he]))
   | «show» c a b _ _ => intro t h _; cases t <;> simp only [Good] at h
+  | scope sid d kid _ => intro t h _; cases t <;> simp only [Good] at h
+  | forRows sel lists row _ => intro t h _; cases t <;> simp only [Good] at h
   | forKeyed sel lists =>
     intro t h ha
     cases t <;> simp only [Good] at h ⊢
@@ -526,6 +532,8 @@ theorem Good.serialize_eq {K : Nat} {st : St} :
         rw [← hc]; simp only [Bool.false_eq_true, if_false]
         exact ihb inner (h.2.2.2.2.2 hl) (fun e he => hn e (by simp [effsOf, he]))
   | «show» c a b _ _ => intro t h _; cases t <;> simp only [Good] at h
+  | scope sid d kid _ => intro t h _; cases t <;> simp only [Good] at h
+  | forRows sel lists row _ => intro t h _; cases t <;> simp only [Good] at h
   | forKeyed sel lists =>
     intro t h hn
     cases t <;> simp only [Good] at h
@@ -613,8 +621,9 @@ theorem buildAttr_spec {K : Nat} {st : St} (hi : RInv K st) :
   | .stat n v, _ => ⟨hi, Ext.refl _ _ (fun _ hf => hf.elim) _, ⟨rfl, rfl⟩, by simp [buildAttr, AState.effs], Same.refl _⟩
   | .dyn n x, hx => by
     have hs : sigOnly K x = true := by simpa [Attr.exprOk, sigOnly] using hx
+    have hr : st.res x = x := st.res_eq (by simp only [Attr.exprOk, Bool.and_eq_true] at hx; exact hx.2)
     have hn := newEff_spec hi hs
-    simp only [buildAttr]
+    simp only [buildAttr, hr]
     refine ⟨hn.inv.of_rs_prog rfl rfl, hn.ext.trans (spawn_ext _ _), ?_, ?_, ?_⟩
     · exact ⟨rfl, rfl, hn.effOK hi (spawn_ext _ _) (by simp [St.spawn]) rfl⟩
     · intro e he
@@ -623,8 +632,9 @@ theorem buildAttr_spec {K : Nat} {st : St} (hi : RInv K st) :
     · exact ⟨hn.zombies, hn.root, hn.rootN, hn.disposed⟩
   | .cls n x, hx => by
     have hs : sigOnly K x = true := by simpa [Attr.exprOk, sigOnly] using hx
+    have hr : st.res x = x := st.res_eq (by simp only [Attr.exprOk, Bool.and_eq_true] at hx; exact hx.2)
     have hn := newEff_spec hi hs
-    simp only [buildAttr]
+    simp only [buildAttr, hr]
     refine ⟨hn.inv.of_rs_prog rfl rfl, hn.ext.trans (spawn_ext _ _), ?_, ?_, ?_⟩
     · exact ⟨rfl, rfl, hn.effOK hi (spawn_ext _ _) (by simp [St.spawn]) rfl⟩
     · intro e he
@@ -633,8 +643,9 @@ theorem buildAttr_spec {K : Nat} {st : St} (hi : RInv K st) :
     · exact ⟨hn.zombies, hn.root, hn.rootN, hn.disposed⟩
   | .sty n x, hx => by
     have hs : sigOnly K x = true := by simpa [Attr.exprOk, sigOnly] using hx
+    have hr : st.res x = x := st.res_eq (by simp only [Attr.exprOk, Bool.and_eq_true] at hx; exact hx.2)
     have hn := newEff_spec hi hs
-    simp only [buildAttr]
+    simp only [buildAttr, hr]
     refine ⟨hn.inv.of_rs_prog rfl rfl, hn.ext.trans (spawn_ext _ _), ?_, ?_, ?_⟩
     · exact ⟨rfl, rfl, hn.effOK hi (spawn_ext _ _) (by simp [St.spawn]) rfl⟩
     · intro e he
@@ -664,15 +675,15 @@ theorem build_seq (a b : View) (st : St) :
 
 theorem build_dynText (x : Expr) (st : St) :
     build (.dynText x) st =
-      (.dynText (newEff st x).1 x (newEff st x).2.2.alloc.1 (newEff st x).2.1,
-       (newEff st x).2.2.alloc.2.spawn (newEff st x).1) := rfl
+      (.dynText (newEff st (st.res x)).1 x (newEff st (st.res x)).2.2.alloc.1 (newEff st (st.res x)).2.1,
+       (newEff st (st.res x)).2.2.alloc.2.spawn (newEff st (st.res x)).1) := rfl
 
 theorem build_either (c : Expr) (a b : View) (st : St) :
     build (.either c a b) st =
-      (.either (newEff st c).1 c a b ((newEff st c).2.1 != 0)
-          (if (newEff st c).2.1 != 0 then build a (newEff st c).2.2 else build b (newEff st c).2.2).1,
-       (if (newEff st c).2.1 != 0 then build a (newEff st c).2.2 else build b (newEff st c).2.2).2.spawn
-          (newEff st c).1) := by
+      (.either (newEff st (st.res c)).1 c a b ((newEff st (st.res c)).2.1 != 0)
+          (if (newEff st (st.res c)).2.1 != 0 then build a (newEff st (st.res c)).2.2 else build b (newEff st (st.res c)).2.2).1,
+       (if (newEff st (st.res c)).2.1 != 0 then build a (newEff st (st.res c)).2.2 else build b (newEff st (st.res c)).2.2).2.spawn
+          (newEff st (st.res c)).1) := by
   simp only [build]
 
 structure BuiltAttrs (K : Nat) (st : St) (as : List Attr) (ss : List AState) (st' : St) : Prop where
@@ -721,6 +732,8 @@ def View.core : View → Bool
   | .either _ a b => a.core && b.core
   | .show _ _ _ => false
   | .forKeyed _ _ => true
+  | .scope _ _ _ => false
+  | .forRows _ _ _ => false
 
 structure Built (K : Nat) (st : St) (v : View) (t : RState) (st' : St) : Prop where
   inv : RInv K st'
@@ -794,7 +807,7 @@ theorem build_spec {K : Nat} : ∀ (v : View) (st : St), RInv K st → v.wf K = 
     intro st hi hw _
     have hs : sigOnly K x = true := by simpa [View.wf, sigOnly] using hw
     have hn := newEff_spec hi hs
-    rw [build_dynText]
+    rw [build_dynText, st.res_eq (by simp only [View.wf, Bool.and_eq_true] at hw; exact hw.2)]
     dsimp only
     have hx2 : Ext K (fun _ => False) (newEff st x).2.2 ((newEff st x).2.2.alloc.2.spawn (newEff st x).1) :=
       (alloc_ext _).trans (spawn_ext _ _)
@@ -812,7 +825,7 @@ theorem build_spec {K : Nat} : ∀ (v : View) (st : St), RInv K st → v.wf K = 
     simp only [View.core, Bool.and_eq_true] at hc
     have hs : sigOnly K c = true := by simp [sigOnly, hw.1.1.1.1, hw.1.1.1.2, hw.1.1.2]
     have hn := newEff_spec hi hs
-    rw [build_either]
+    rw [build_either, st.res_eq hw.1.1.2]
     dsimp only
     by_cases hv : ((newEff st c).2.1 != 0) = true
     · simp only [hv, if_true]
@@ -866,12 +879,14 @@ theorem build_spec {K : Nat} : ∀ (v : View) (st : St), RInv K st → v.wf K = 
         have hl1 : (newEff st c).2.2.prog.length = st.prog.length + 1 := by rw [hn.prog]; simp
         omega
   | «show» c a b _ _ => intro st _ _ hc; simp [View.core] at hc
+  | scope sid d kid _ => intro st _ _ hc; simp [View.core] at hc
+  | forRows sel lists row _ => intro st _ _ hc; simp [View.core] at hc
   | forKeyed sel lists =>
     intro st hi hw _
     obtain ⟨hsel, hl⟩ := wf_forKeyed hw
     have hs : sigOnly K sel = true := by simp [sigOnly, hsel.1, hsel.2.1, hsel.2.2]
     have hn := newEff_spec hi hs
-    rw [build_forKeyed]
+    rw [build_forKeyed, st.res_eq hsel.2.2]
     dsimp only
     obtain ⟨n, hbn⟩ := buildFor_st (newEff st sel).2.2 (listAt lists (newEff st sel).2.1)
     have hx2 : Ext K (fun _ => False) (newEff st sel).2.2
@@ -1065,6 +1080,8 @@ theorem Good.map {K : Nat} {st st' : St} :
       · intro hl; exact iha inner (h.2.2.2.2.1 hl) (fun e x cur he => hm e x cur (by simp [effsOf, he]))
       · intro hl; exact ihb inner (h.2.2.2.2.2 hl) (fun e x cur he => hm e x cur (by simp [effsOf, he]))
   | «show» c a b _ _ => intro t h _; cases t <;> simp only [Good] at h
+  | scope sid d kid _ => intro t h _; cases t <;> simp only [Good] at h
+  | forRows sel lists row _ => intro t h _; cases t <;> simp only [Good] at h
   | forKeyed sel lists =>
     intro t h hm
     cases t <;> simp only [Good] at h ⊢
@@ -1146,6 +1163,8 @@ theorem Good.effOK {K : Nat} {st : St} :
         | true => exact iha inner (h.2.2.2.2.1 hl) e he
         | false => exact ihb inner (h.2.2.2.2.2 hl) e he
   | «show» c a b _ _ => intro t h _ _; cases t <;> simp only [Good] at h
+  | scope sid d kid _ => intro t h _ _; cases t <;> simp only [Good] at h
+  | forRows sel lists row _ => intro t h _ _; cases t <;> simp only [Good] at h
   | forKeyed sel lists =>
     intro t h e he
     cases t <;> simp only [Good] at h
